@@ -159,6 +159,8 @@ type c15Case struct {
 	compared, attributed int
 	stableAtFailover     bool
 	membersAtFailover    int
+
+	prefix *gWorld // coordinator A's world (also when the case was cut before the failover)
 }
 
 func (c *c15Case) violate(class, summary string, extra map[string]any) {
@@ -193,6 +195,10 @@ func (c *c15Case) judge(what string, vals []string, step string) bool {
 		return true
 	}
 	class := "diverges_after_failover:" + what
+	if c.prefix != nil && c.prefix.ovl.Inside > 0 {
+		// before the failover a request ran to completion while another one was held inside a store call
+		class = "diverges_after_failover_following_overlapped_requests:" + what
+	}
 	attributed := false
 	if len(vals) > 2 && vals[2] == vals[0] && c.lossCl != "" {
 		attributed = true
@@ -378,8 +384,184 @@ func TestVerifC15(t *testing.T) {
 	c15Mem(t, r)
 	r.Note("wall_s_in_memory_part", time.Since(t0).Seconds())
 	t0 = time.Now()
+	c15Concurrent(t, r)
+	r.Note("wall_s_in_memory_concurrent_part", time.Since(t0).Seconds())
+	t0 = time.Now()
 	c15Etcd(t, r)
 	r.Note("wall_s_etcd_part", time.Since(t0).Seconds())
+}
+
+// ---------------------------------------------------------------------------
+// Part 1b: requests in flight at once before the failover.
+//
+// The metadata store is slow for ONE chosen store call of a request A (the recording decorator holds it,
+// before or after the real store executed it) while another client's request B (a leave, a new or changed
+// join, a session expiry, a heartbeat, a commit, a sync) is sent. Whether B runs inside A's store call or
+// waits for A is the coordinator's business (the overlap driver finds out without relying on time, see
+// _shared/group/overlap_test.go); either way BOTH requests have been answered before anything else happens.
+// The failover follows the last such pair directly or after a few requests, so that a group record that
+// reached the store in another order than the coordinator's own state changes is what the new coordinator
+// loads. Judged by the same twin comparison as part 1.
+
+var c15AKinds = []string{"hb", "join", "joinresub", "syncleader", "sync", "leave", "commit"}
+var c15AWeights = map[string]int{"hb": 8, "join": 3, "joinresub": 2, "syncleader": 3, "sync": 1, "leave": 2, "commit": 2}
+var c15BKinds = []string{"joinfresh", "leave", "joinresub", "expire", "join", "hb", "commit", "sync"}
+var c15BWeights = map[string]int{"joinfresh": 6, "leave": 6, "joinresub": 4, "expire": 4, "join": 1, "hb": 2, "commit": 1, "sync": 1}
+
+// store call of A that is held, by kind of A (the group record write unless A makes none)
+var c15Parks = map[string][]string{
+	"hb":     {"put", "put", "put", ""},
+	"join":   {"put", "put", "put", "fetchgroup", ""},
+	"sync":   {"put", "put", "put", "metadata", ""},
+	"leave":  {"put", "delete", "", ""},
+	"commit": {"commit", ""},
+}
+
+func c15GenConcurrent(rng *rand.Rand, p gProfile, group string) (gConfig, []gOp) {
+	cfg := gGenConfig(rng, p, group)
+	cfg.M = 2 + rng.Intn(3)
+	for len(cfg.SessionMs) < cfg.M {
+		cfg.SessionMs = append(cfg.SessionMs, p.Sessions[rng.Intn(len(p.Sessions))])
+		cfg.RebalMs = append(cfg.RebalMs, cfg.RebalMs[0])
+	}
+	cfg.SessionMs, cfg.RebalMs = cfg.SessionMs[:cfg.M], cfg.RebalMs[:cfg.M]
+	var ops []gOp
+	// the group forms: slots 0..joined-1 hold a member id from now on (the generator's approximation: a
+	// slot that left or was expired still sends requests, which are then refused - ordinary traffic)
+	joined := 1 + rng.Intn(cfg.M)
+	for i := 0; i < joined; i++ {
+		ops = append(ops, gOp{K: "join", Slot: i, Sub: gRandSub(rng, cfg.Universe)})
+	}
+	member := func() int { return rng.Intn(joined) }
+	other := func(not int) int { // another client: one that is a member if there is one, else a newcomer
+		if joined > 1 {
+			return (not + 1 + rng.Intn(joined-1)) % joined
+		}
+		return joined // (joined < cfg.M here: cfg.M >= 2)
+	}
+	request := func(kind string, slot int) gOp {
+		op := gOp{Slot: slot}
+		switch kind {
+		case "hb":
+			op.K = "hb"
+		case "join":
+			op.K = "join"
+		case "joinresub":
+			op.K, op.Sub = "join", gRandSub(rng, cfg.Universe)
+		case "joinfresh":
+			op.K, op.Fresh, op.Sub = "join", true, gRandSub(rng, cfg.Universe)
+			if joined < cfg.M && rng.Intn(4) != 0 { // mostly a client that was not a member so far
+				op.Slot = joined
+			}
+		case "syncleader":
+			op.K, op.Who = "sync", "leader"
+		case "sync":
+			op.K = "sync"
+		case "leave":
+			op.K = "leave"
+		case "commit":
+			op.K, op.Topic, op.Part = "commit", cfg.Universe[rng.Intn(len(cfg.Universe))], int32(rng.Intn(5))
+		case "expire": // long enough for the session of one of the members (plus a cleanup tick)
+			op.K, op.DtMs = "advance", cfg.SessionMs[member()]+cfg.CleanupMs+rng.Int63n(1000)
+		}
+		return op
+	}
+	phase := func() {
+		switch rng.Intn(8) {
+		case 0: // as it is (a rebalance nobody has completed)
+		case 1: // everybody polls: the rebalance completes, the leader has not synced yet
+			ops = append(ops, gOp{K: "joinall"})
+		default: // Stable
+			ops = append(ops, gOp{K: "settle"})
+			if rng.Intn(3) == 0 { // heartbeats some time after the last join/sync
+				ops = append(ops, gOp{K: "advance", DtMs: 20 + rng.Int63n(1500)})
+				for i := 0; i < joined; i++ {
+					if rng.Intn(2) == 0 {
+						ops = append(ops, gOp{K: "hb", Slot: i})
+					}
+				}
+			}
+		}
+	}
+	rounds := 1 + rng.Intn(2)
+	for k := 0; k < rounds; k++ {
+		phase()
+		sa := member()
+		a := request(gPickWeighted(rng, c15AKinds, c15AWeights), sa)
+		bk := gPickWeighted(rng, c15BKinds, c15BWeights)
+		if joined == 1 && bk != "expire" {
+			bk = "joinfresh" // the only other clients are newcomers
+		}
+		b := request(bk, other(sa))
+		parks := c15Parks[a.K]
+		park := gParkSpec{Kind: parks[rng.Intn(len(parks))], After: rng.Intn(4) == 0}
+		if park.Kind == "metadata" || park.Kind == "fetchgroup" {
+			park.After = false
+		}
+		ops = append(ops, gOp{K: "ovl", A: &a, B: &b, Park: &park})
+		if b.K == "join" && b.Slot == joined {
+			joined++
+		}
+	}
+	// what follows the last pair before the failover
+	switch rng.Intn(4) {
+	case 0, 1: // nothing: the new coordinator starts from what the pair left in the store
+	case 2: // requests that are answered without a group record write in most states
+		for k := 1 + rng.Intn(3); k > 0; k-- {
+			switch rng.Intn(3) {
+			case 0:
+				ops = append(ops, gOp{K: "fetch", Slot: member(), Topic: cfg.Universe[rng.Intn(len(cfg.Universe))], Part: int32(rng.Intn(5))})
+			case 1:
+				ops = append(ops, gOp{K: "commit", Slot: member(), Topic: cfg.Universe[rng.Intn(len(cfg.Universe))], Part: int32(rng.Intn(5))})
+			case 2:
+				ops = append(ops, gOp{K: "hb", Slot: member(), Ident: "stale", Pick: rng.Intn(64)})
+			}
+		}
+	case 3: // arbitrary traffic
+		sp := p
+		sp.MinOps, sp.MaxOps, sp.WFailover = 1, 4, 0
+		ops = append(ops, gGenOps(rng, sp, cfg)...)
+	}
+	return cfg, ops
+}
+
+func c15Concurrent(t *testing.T, r *verifkit.Run) {
+	gRealTimerStart()
+	p := c15Profile()
+	n := r.N(300, 3600)
+	for ci := 0; ci < n; ci++ {
+		rng := r.Rand(1000000 + ci)
+		cfg, ops := c15GenConcurrent(rng, p, fmt.Sprintf("v%d", ci))
+		c := c15MemCase(t, r, rng, cfg, ops, int64(1000000+ci)*100000, "conc_")
+		a := c.prefix
+		gOvlAccount(a, func(name string, k int64) { r.Count("conc_"+name, k) }, func(set, m string) { r.Seen("conc_"+set, m) })
+		for _, e := range a.log {
+			if e.Ovl == "A" && !gTruthEqual(e.Cands[0], e.Cands[len(e.Cands)-1]) {
+				r.Count("conc_group_record_changed_while_a_request_was_held_in_a_store_call", 1)
+			}
+		}
+		if c.worlds == nil {
+			continue // order of two requests unknown: not judged (counted as conc_overlap_order_unknown_case_cut)
+		}
+		// a second client's request was ready while the first one was inside its store call
+		raced := a.ovl.LockHeld+a.ovl.Inside > 0
+		r.Case(gOpsSig(a)+gOpsSig(c.worlds[1]), raced && c.compared > 3 && c.membersAtFailover >= 2)
+		r.Count("conc_failovers", 1)
+		if raced {
+			r.Count("conc_failovers_after_a_request_was_held_in_a_store_call", 1)
+		}
+		if c.membersAtFailover >= 2 {
+			r.Count("conc_failovers_with_two_or_more_members", 1)
+		}
+		if c.stableAtFailover {
+			r.Count("conc_failovers_of_stable_group", 1)
+		} else {
+			r.Count("conc_failovers_of_other_states", 1)
+		}
+		if ci < 1 {
+			r.Sample(map[string]any{"part": "concurrent", "twin_A": gWitness(a, -1, nil)})
+		}
+	}
 }
 
 func c15Mem(t *testing.T, r *verifkit.Run) {
@@ -407,47 +589,8 @@ func c15Mem(t *testing.T, r *verifkit.Run) {
 			}
 			ops = append(ops, gOp{K: "advance", DtMs: 1 + rng.Int63n(minS/8)})
 		}
-		var c *c15Case
-		synctest.Test(t, func(t *testing.T) {
-			s1 := metadata.NewInMemoryStore(cfg.metadata())
-			s2 := metadata.NewInMemoryStore(cfg.metadata())
-			s3 := &c15FaithfulStore{Store: metadata.NewInMemoryStore(cfg.metadata()), last: map[string]*metadatapb.ConsumerGroup{}}
-			a := newGWorld(t, cfg, s1, true, int64(ci)*100000, s2, s3)
-			a.obs = append(a.obs, func(w *gWorld, ev *gEvent) { r.Seen("group_states", w.stateSig(ev.After)) })
-			for _, op := range ops {
-				a.step(op)
-			}
-			a.alignToTick()
-			c = &c15Case{r: r, leg: "mem", flags: map[string]bool{}}
-			// (0) what the store gives back vs what the coordinator wrote
-			written := a.rec.lastWritten(cfg.Group)
-			read, _ := s1.FetchConsumerGroup(context.Background(), cfg.Group)
-			c.lost = c15LostFields(written, read)
-			c.lossCl = c15LossClass(c.lost)
-			r.Seen("failover_states", a.stateSig(a.prev))
-			// failover: B over the real store; A moves to the shadow; C over the faithful shadow
-			b := a.fork("B", s1)
-			cc := a.fork("C", s3)
-			a.rec.retarget(s2)
-			c.worlds = []*gWorld{a, b, cc}
-			if c.lossCl != "" {
-				c.violate(c.lossCl, fmt.Sprintf("group record read back from the store differs from the record the coordinator wrote in %v", c.lost),
-					map[string]any{"written": written, "read_back": read})
-			}
-			c.afterFailover(rng, cfg, true)
-			for _, w := range c.worlds {
-				w.stopAll()
-			}
-		})
-		c.flush()
+		c := c15MemCase(t, r, rng, cfg, ops, int64(ci)*100000, "")
 		a := c.worlds[0]
-		blocked := false
-		for _, w := range c.worlds {
-			blocked = blocked || w.blocked
-		}
-		if blocked {
-			r.Inconclusive(fmt.Sprintf("case %d: a coordinator call never returned", ci))
-		}
 		r.Case(gOpsSig(a)+gOpsSig(c.worlds[1]), c.compared > 3 && c.membersAtFailover >= 2)
 		if c.membersAtFailover >= 2 {
 			r.Count("failovers_with_two_or_more_members", 1)
@@ -466,6 +609,65 @@ func c15Mem(t *testing.T, r *verifkit.Run) {
 	r.Floor("failovers_of_other_states", 30)
 	r.Floor("twin_comparisons", 5000)
 	r.Floor("failover_states", 8)
+}
+
+// c15MemCase runs one in-memory twin case: the prefix on coordinator A, the failover, the comparison phase.
+// Violations are flushed; the caller does the accounting. worlds is nil iff the prefix could not be
+// completed in a known order (overlapped requests, see c15Concurrent) and nothing was judged.
+func c15MemCase(t *testing.T, r *verifkit.Run, rng *rand.Rand, cfg gConfig, ops []gOp, offBase int64, pfx string) *c15Case {
+	c := &c15Case{r: r, leg: "mem", pfx: pfx, flags: map[string]bool{}}
+	synctest.Test(t, func(t *testing.T) {
+		s1 := metadata.NewInMemoryStore(cfg.metadata())
+		s2 := metadata.NewInMemoryStore(cfg.metadata())
+		s3 := &c15FaithfulStore{Store: metadata.NewInMemoryStore(cfg.metadata()), last: map[string]*metadatapb.ConsumerGroup{}}
+		a := newGWorld(t, cfg, s1, true, offBase, s2, s3)
+		a.obs = append(a.obs, func(w *gWorld, ev *gEvent) { r.Seen(pfx+"group_states", w.stateSig(ev.After)) })
+		c.prefix = a
+		for _, op := range ops {
+			a.step(op)
+		}
+		if a.cut {
+			// two overlapped requests finished in an order the harness does not know: nothing is judged
+			a.stopAll()
+			return
+		}
+		a.alignToTick()
+		// (0) what the store gives back vs what the coordinator wrote
+		written := a.rec.lastWritten(cfg.Group)
+		read, _ := s1.FetchConsumerGroup(context.Background(), cfg.Group)
+		if a.ovl.Inside == 0 {
+			// (after requests that overlapped inside a store call the record written LAST by call order need not be
+			// the one that reached the store last; what the store holds is then judged through the twins only)
+			c.lost = c15LostFields(written, read)
+			c.lossCl = c15LossClass(c.lost)
+		}
+		r.Seen(pfx+"failover_states", a.stateSig(a.prev))
+		// failover: B over the real store; A moves to the shadow; C over the faithful shadow
+		b := a.fork("B", s1)
+		cc := a.fork("C", s3)
+		a.rec.retarget(s2)
+		c.worlds = []*gWorld{a, b, cc}
+		if c.lossCl != "" {
+			c.violate(c.lossCl, fmt.Sprintf("group record read back from the store differs from the record the coordinator wrote in %v", c.lost),
+				map[string]any{"written": written, "read_back": read})
+		}
+		c.afterFailover(rng, cfg, true)
+		for _, w := range c.worlds {
+			w.stopAll()
+		}
+	})
+	if c.worlds == nil {
+		return c
+	}
+	c.flush()
+	blocked := false
+	for _, w := range c.worlds {
+		blocked = blocked || w.blocked
+	}
+	if blocked {
+		r.Inconclusive(fmt.Sprintf("case %s: a coordinator call never returned", cfg.Group))
+	}
+	return c
 }
 
 // ---------------------------------------------------------------------------
